@@ -516,6 +516,12 @@ func Run(p *Prop, tier string, seed int64, root, self, raceSelf string) int {
 		a.Extra["race_signatures"] = sigs
 		for _, s := range sigs {
 			rr := bySig[s][0]
+			if strings.HasPrefix(s, "harness-race:") {
+				// not the library's: shown so that it gets fixed, never a verdict on the property
+				a.Counters["harness_race_reports"] += len(bySig[s])
+				fmt.Printf("  note: data race inside the harness itself (no library frame involved), not a verdict: %s\n", s)
+				continue
+			}
 			a.Counters["race_reports"] += len(bySig[s])
 			report(Case{Idx: -1, Name: "race-detector"}, Result{Trace: strings.Split(rr.Text, "\n")}, s, rr.Text)
 		}
@@ -746,6 +752,10 @@ func raceSig(block string) string {
 		}
 	}
 	sort.Strings(tops)
+	if !strings.Contains(block, "github.com/at-wat/mqtt-go.") {
+		// neither access nor any goroutine creation involves the library: a race of the harness with itself
+		return "harness-race:" + strings.Join(tops, "<>")
+	}
 	return "race:" + strings.Join(tops, "<>")
 }
 
